@@ -131,9 +131,9 @@ pub fn run(args: &Args, rep: &Arc<Report>) {
     let groups = if args.replay.is_some() {
         vec![]
     } else if thorough {
-        vec![ustream::g9(&[64, 192, 576, 4096]), amplitude_sweep(true)]
+        vec![ustream::g9(&[64, 192, 576, 4096]), amplitude_sweep(true), ustream::gn()]
     } else {
-        vec![ustream::g9(&[64, 192, 576]), amplitude_sweep(false)]
+        vec![ustream::g9(&[64, 192, 576]), amplitude_sweep(false), ustream::gn()]
     };
     let d = if thorough { 3 } else { 2 };
     drive(args, rep, d, true, groups, |case, labels, local| {
